@@ -278,6 +278,11 @@ func solveFunction(fr *FuncResult, opts CheckOpts) {
 			defer wg.Done()
 			sem <- struct{}{}
 			defer func() { <-sem }()
+			defer func() {
+				if r := recover(); r != nil {
+					o.Res = SolverResult{Status: "error", Backend: "internal", Output: fmt.Sprint("internal error while discharging the obligation: ", r)}
+				}
+			}()
 			if opts.Fast && (atomic.LoadInt32(&fastFailed) != 0 || time.Now().After(opts.Deadline)) {
 				o.Res = SolverResult{Status: "unknown", Backend: "skipped"}
 				atomic.StoreInt32(&fastFailed, 1)
